@@ -327,7 +327,7 @@ func (c *Ctx) PtrEq(a, b Ptr) *Term {
 	}
 	return c.And(c.Eq(a.R, b.R), c.Eq(a.O, b.O))
 }
-func (c *Ctx) IsNil(p Ptr) *Term    { return c.Eq(p.R, c.Const(RgnW, 0)) }
+func (c *Ctx) IsNil(p Ptr) *Term { return c.Eq(p.R, c.Const(RgnW, 0)) }
 
 // EqVal builds structural equality for comparable values; strings compare via the uninterpreted
 // predicate streq over (region, offset, len) triples plus length equality.
